@@ -45,6 +45,7 @@ import sqimg  # noqa: E402
 import flagleg  # noqa: E402
 import orderleg  # noqa: E402
 import lineleg  # noqa: E402
+import threshleg  # noqa: E402
 
 LEVEL = "proof"
 ENV = dict(os.environ, ASAN_OPTIONS="detect_leaks=0", LC_ALL="C")
@@ -1092,6 +1093,9 @@ def run(ctx):
         "props/C17/orderleg.py + driver_order.ml (order leg: case generation, the host tree / add operations handed to the "
         "extracted order_dir / order_ops - for -F the translation of `dir` / `file` lines into fstree_add_generic calls is "
         "restated in Python (C16 owns the parser) - and the decoding of data start offsets / fragment references with sqimg.py)",
+        "props/C17/threshleg.py (size-class leg: the (-b, -B) pairs, the file sizes around both values, the contents, the "
+        "property's rule 'tail fragment iff size % b != 0 and neither listed with dont_fragment nor (-T and size > b)' restated "
+        "in Python next to the flag word of the extracted pack_flags; decoding with sqimg.py)",
         "props/C17/lineleg.py + h_line.c + driver_line.ml (line leg: h_line.c repeats the five statements of the loop body of "
         "fstree_sort_files in front of the matching loop around the included decoders; the expectations of the written / "
         "malformed streams are the generator's reading of gensquashfs(1) SORT FILE FORMAT, py_canon restates canonicalize_name)",
@@ -1139,6 +1143,10 @@ def run(ctx):
         elif kind == "line":
             lres = lineleg.run_leg(ctx, info, [lineleg.case_of_replay(rp)])
             lineleg.report(ctx, lres, seen)
+            ctx.coverage["evaluations"] = 1
+        elif kind == "thresh":
+            thst, thbad = threshleg.run_leg(ctx, info, drv, work, [threshleg.case_of_replay(rp)])
+            threshleg.report(ctx, info, thbad, seen)
             ctx.coverage["evaluations"] = 1
         elif kind == "pack":
             cases = [tuple(rp["case"])]
@@ -1247,9 +1255,20 @@ def run(ctx):
         if sig not in seen:
             seen.add(sig)
             ctx.violation(sig, what, dict(kind="tar", note="fixed archive built by tar_tool_check(); re-run ./check C17"))
-    ctx.coverage["evaluations"] += len(tcases) + 1
-    ctx.coverage["distinct_nontrivial"] += len(tcases)
+    # ---- size-class leg: -T / dont_fragment under -b != -B, both front ends, sizes around both values ----
+    import time as _time
+    _t0 = _time.time()
+    thcases = threshleg.cases(quick)
+    thst, thbad = threshleg.run_leg(ctx, info, drv, work, thcases)
+    threshleg.report(ctx, info, thbad, seen)
+    thst["seconds"] = round(_time.time() - _t0, 1)
+    ctx.log("size-class leg: %d images (%d tar2sqfs, %d gensquashfs), %d files, %d of them between -b and -B, failing images %d "
+            "(%.1f s)" % (thst["images"], thst["tar2sqfs"], thst["gensquashfs"], thst["files"], thst["in_between_sizes"],
+                          thst["failing"], thst["seconds"]))
+    ctx.coverage["evaluations"] += len(tcases) + 1 + thst["images"]
+    ctx.coverage["distinct_nontrivial"] += len(tcases) + thst["images"]
     ctx.coverage["distribution"]["tool_oracle"] = stats
+    ctx.coverage["distribution"]["size_class_leg"] = thst
     ctx.log("tool oracle: %d images, %d with problems" % (len(tcases), ntool_bad))
     # pack tie verdict after the search
     finish_pack(ctx, bad, concrete=any(not v["no_input"] for v in ctx.violations))
@@ -1275,7 +1294,9 @@ def run(ctx):
         "uniform, glob mode, flag subsets, names over 26 pieces incl. blanks, quotes, backslash, brackets, '#', ',', '.', '..', "
         "control and high bytes, '//' and leading './') as 30%% printed by the extracted printer (+ LF / CRLF), 30%% written by "
         "hand (unquoted / quoted name, tabs, padded / repeated / both glob keywords, '[]', indentation, blank lines in front), "
-        "32%% one-defect malformed lines of 16 classes, 8%% random byte edits" % ctx.seed)
+        "32%% one-defect malformed lines of 16 classes, 8%% random byte edits; size-class leg: tar2sqfs and gensquashfs x 7 (-b, -B) "
+        "pairs (b > B, b < B, b == B, explicit and default -B, the default 128K block) x files of {1, B-1, B, B+1, b-1, b, b+1, "
+        "b+B, 2b, 2b+1} bytes x -T on/off x (gensquashfs) no sort file / dont_fragment on the even / on the odd files" % ctx.seed)
 
 
 def finish_sort(ctx, info, t, work, seen, search):
